@@ -421,6 +421,12 @@ def run_case(case, world):
                     violate('SET_MISMATCH', 'membership:%s' % opname,
                             '%d in object %d gives %r, representation says %r' % (p, i, p in o, bool(m >> p & 1)), feats)
                     break
+            if kind == 'us' and B.popcount(m) <= 5000 and not any(v['cls'] == 'NOT_CANONICAL' for v in violations[-2:]):
+                # size and truth value through the public API, for every object after every operation
+                n_ = B.popcount(m)
+                if len(o) != n_ or bool(o) != bool(n_):
+                    violate('SET_MISMATCH', 'len:%s' % opname, 'after %s len(object %d) is %d and bool() is %r, the set has %d '
+                            'code points' % (opname, i, len(o), bool(o), n_), feats)
             if kind == 'us' and i in touched:
                 stats['full_equalities'] += 1
                 rebuilt = UnicodeSubset(B.to_codepoints(m))
